@@ -65,9 +65,9 @@ impl IString for StringRegNode {
         cx: &mut ValueCtxt<T, U>,
     ) -> GenApiResult<()> {
         let max_length = self.max_length(device, store, cx)? as usize;
-        if !value.is_ascii() {
+        if !value.is_ascii() || value.contains('\0') {
             return Err(GenApiError::invalid_data(
-                "the data must be an ascii string".into(),
+                "the data must be an ascii string without NUL characters".into(),
             ));
         }
         if value.len() > max_length {
